@@ -46,6 +46,13 @@ def gen_case(rng, tier, idx):
         c = gen_expiry_history(rng, tier)
         c["drive"] = "direct"
         return c
+    if idx % 16 == 2:
+        # call auction on a deep book with market orders queued behind the limit orders
+        from ..direct import gen_deep_auction_history
+
+        c = gen_deep_auction_history(rng, tier)
+        c["drive"] = "direct"
+        return c
     if idx % 16 == 3:
         from ..direct import gen_both_sides_market_history
 
